@@ -2,11 +2,11 @@ import Driver.Util
 import Driver.SValJson
 import Driver.SchemaJson
 import Driver.Suites.Trace
-import SaModel.Trace.FromType
+import SaModel.Trace.FromTypeG
 import SaModel.Trace.Mapping
 import SaModel.Lemmas.C08Covers
 import SaModel.Lemmas.C08Class
-/- suite `tracety` (C08): `from_type::<DynRoot>` on the real crate vs `SaModel.Trace.fromType` (operational model) and
+/- suite `tracety` (C08): `from_type::<DynRoot>` on the real crate vs `SaModel.Trace.fromTypeG` (operational model of the code after fix aaf3edc) and
    vs `Spec.fromTypeSpec` (the documented mapping); `from_samples` on covering samples must give the same schema;
    overwrites at real and perturbed paths; DynRoot fidelity against the compiled zoo of real derives.
    `samples_rand`: a randomised sample list that must be covering in the sense of `SaModel.Lemmas.C08.Covers` (decided here
@@ -29,7 +29,8 @@ def tyFieldsOfList : List (String × Ty) → TyFields
   | [] => .nil
   | (n, t) :: r => .cons n t (tyFieldsOfList r)
 
-partial def tyOfJson (j : Json) : Except String Ty := do
+partial def tyOfJsonR (recTy : Option Ty) (j : Json) : Except String Ty := do
+  let tyOfJson := tyOfJsonR recTy
   let t ← getStr j "t"
   let name := (getStr j "n").toOption.getD ""
   let tys (a : Json) : Except String Tys := do pure (tysOfList (← (← a.getArr?).toList.mapM tyOfJson))
@@ -64,7 +65,20 @@ partial def tyOfJson (j : Json) : Except String Ty := do
           | "tuple" => pure (.tuple n (← tys a) rest)
           | _ => pure (.struct n (← fields a) rest)
       pure (.enum name (← build vs))
+    -- a recursive definition `T = body[rec := T]` (DynRoot follows it like a recursive Rust type): the finite model
+    -- type is its unrolling, 30 levels deep (more than MAX_TYPE_DEPTH + 1 of any refusal), ending in `()`
+    | "recdef" =>
+      let body ← getObj j "a"
+      let mut acc : Ty := .unit
+      for _ in [0:30] do
+        acc ← tyOfJsonR (some acc) body
+      pure acc
+    | "rec" => match recTy with
+      | some t => pure t
+      | none => throw "rec outside recdef"
     | _ => throw s!"unknown type tag {t}"
+
+def tyOfJson (j : Json) : Except String Ty := tyOfJsonR none j
 
 def sameOutcome (m : R (List Field)) (cls : String) (f : Option (List Field)) : Bool :=
   m.cls == cls && (match m, f with | .ok a, some b => decide (a = b) | .ok _, none => false | _, _ => true)
@@ -165,8 +179,8 @@ def handle (j : Json) : Except String Verdict := do
   let mut c08 := true
   let mut csig := ""
   -- (a) operational model and documented mapping vs from_type
-  let model := fromType .fixed o ty
-  let spec := Spec.fromTypeSpec o ty
+  let model := fromTypeG .fixed o ty
+  let spec := Spec.fromTypeSpecG o ty
   if !sameOutcome model cls implFields then
     agree := false; asig := s!"tracety/model-vs-impl/{diffSig model cls implFields}"
   if !sameOutcome spec cls implFields then
@@ -240,8 +254,8 @@ def handle (j : Json) : Except String Verdict := do
     if let some iw := getOpt j "impl_ow" then
       let (wcls, wf) ← implOutcome iw
       panics := panics || wcls == "panic"
-      let mw := fromType .fixed o2 ty
-      let sw := Spec.fromTypeSpec o2 ty
+      let mw := fromTypeG .fixed o2 ty
+      let sw := Spec.fromTypeSpecG o2 ty
       tags := tags ++ [s!"ow:{wcls}"]
       owCls := wcls; owFields := wf
       if !sameOutcome mw wcls wf then
